@@ -32,6 +32,9 @@ def run(chk, tier):
     E.lazy_rendering(chk, F, 'R05.7', 'std')
     from props import c08
     c08.eval_wiring(chk, F, 'R05.8', 'std')
+    # R05.12 the arguments reach what the resolution order says they reach (clause > default body > partial-by-default > fallback mode): a provided
+    # method without a clause hands them to its default body in every kind of mock, and through it to the required methods' matchers
+    E.eval_dyn_table(chk, F, 'R05.12', 'std')
     # R05.11 the hand-written forwarders of the delegation helper (Display / Debug behind mock-core) hand the caller's arguments - the very
     # Formatter, with its width / fill / flags - to the mock's own method and return its result (shared with C15/C20)
     from props import c20
